@@ -512,7 +512,7 @@ VARIANTS = [
     M.Variant("LNS result overwrites incumbent unconditionally", ML, _v_incumbent_unconditional, "C04-O2"),
     M.Variant("incumbent solution updated without its objective", ML, _v_stale_objective, "C04-O7"),
     M.Variant("OPTIMAL regardless of open nodes", ML, _v_optimal_after_budget, "C04-O4"),
-    M.Variant("rounding heuristic returns unchecked vector", ML, _v_round_no_gate, "ANALYSIS-ERROR"),
+    M.Variant("rounding heuristic returns unchecked vector", ML, _v_round_no_gate, "C04-O3"),
     M.Variant("twin: reformat", ML, _t_reformat, None),
     M.Variant("twin: rename bound locals", ML, _t_rename, None),
     M.Variant("twin: status conditional written the other way", ML, _t_flag_status, None),
